@@ -30,7 +30,9 @@ pub struct Cfg {
     /// delivery order: 0 emission, 1 reverse, 2 FDT last, 3 drop one source symbol, 4 every packet twice,
     /// 5 object packets only (no FDT), 6 FDT only, 7 emission order without the first symbol of any
     /// block (every block stays pending), 8 emission order with hostile copies of the third object
-    /// packet injected after the second one (each payload-id byte in turn set to 0xFF)
+    /// packet injected after the second one (each payload-id byte in turn set to 0xFF), 9 every object packet,
+    /// then malformed copies of the last one (cut inside / right before the FEC payload id, codepoint of another
+    /// scheme with a longer payload id), then the FDT: everything waits in the cache and is replayed at once
     pub order: u8,
     /// receiver configured with a 10-byte object cache (a third pending block is refused)
     #[serde(default)]
@@ -112,7 +114,22 @@ pub fn prepare(c: &Cfg) -> Result<Prepared, String> {
             }
         }
     }
+    if c.order == 9 && !obj.is_empty() {
+        let src = *obj.last().unwrap();
+        let bytes = rec.pkts[src].1.clone();
+        let hdr = (bytes[2] as usize * 4).min(bytes.len());
+        let mut variants: Vec<Vec<u8>> = vec![bytes[..hdr].to_vec(), bytes[..(hdr + 2).min(bytes.len())].to_vec()];
+        let mut other = bytes[..(hdr + 4).min(bytes.len())].to_vec();
+        other[3] = if c.scheme == Scheme::Rs28Us { 0 } else { 129 };
+        variants.push(other);
+        for b in variants {
+            rec.pkts.push((rec.pkts[src].0, b));
+            rec.info.push(rec.info[src].clone());
+            hostile.push(rec.pkts.len() - 1);
+        }
+    }
     let seq: Vec<usize> = match c.order {
+        9 => obj.iter().chain(hostile.iter()).chain(fdt.iter()).cloned().collect(),
         7 => (0..n).filter(|i| !(rec.info[*i].toi == toi && rec.info[*i].esi == 0)).collect(),
         8 => {
             let cut = obj.get(1).map(|i| i + 1).unwrap_or(n);
@@ -308,6 +325,7 @@ fn configs(thorough: bool) -> Vec<Cfg> {
                     if cenc == 0 && len > 0 && count == 1 {
                         // malformed and cache-exhausting histories (the writer is open when the receiver gives up)
                         v.push(Cfg { scheme, e, b, parity, len, cenc, inband_fti, count, md5, order: 8, crafted_fdt: false, receive_twice: false, small_cache: false, wrong_md5: false, split_cenc: false });
+                        v.push(Cfg { scheme, e, b, parity, len, cenc, inband_fti, count, md5, order: 9, crafted_fdt: false, receive_twice: false, small_cache: false, wrong_md5: false, split_cenc: false });
                         for order in [0u8, 1, 7] {
                             v.push(Cfg { scheme, e, b, parity, len: len + 5 * e as usize * b as usize, cenc, inband_fti, count, md5, order, crafted_fdt: false, receive_twice: false, small_cache: true, wrong_md5: false, split_cenc: false });
                         }
